@@ -102,6 +102,23 @@ def gen(rng, tier):
                 for k in range(min(n, 3) + 1):
                     cs.append(Case("fault %d tlsstream %s %d %s" % (k, mode, rng.choice([1, 20]), " ".join(evs)), kind="tls-fault-" + mode, cut=1, npk=n))
                     cs.append(Case("fault %d %s" % (k, script_line(mode, 0 if mode == "server" else 5, evs)), kind="tcp-fault-" + mode, cut=1, npk=n))
+    # TLS only: records that reach the reader in two halves - its socket becomes readable and no octet of the stream has arrived -, with
+    # and without a silence before the second half, at every place of a message (inside the header, between header and body, inside
+    # the body, between messages)
+    for _ in range(60 if tier == "quick" else 1500):
+        pk = [pkt(rng, rng.choice([20, 21, 24, 64, 300])) for _ in range(rng.randrange(1, 4))]
+        s = b"".join(pk)
+        cuts = sorted({rng.choice([1, 2, 3, 4, 5, 19, 20, 21, len(pk[0]), len(pk[0]) + rng.choice([1, 2, 3, 4])]) for _ in range(rng.randrange(1, 4))} & set(range(1, len(s))))
+        segs = [s[a:b] for a, b in zip([0] + cuts, cuts + [len(s)])]
+        evs = []
+        for j, sg in enumerate(segs):
+            half = j > 0 and rng.random() < 0.6
+            evs.append(("p:" if half else "w:") + sg.hex())
+            if half and rng.random() < 0.7:
+                evs.append("t")
+        evs.append(rng.choice(["e", "e", "t"]))
+        mode = rng.choice(["client", "client", "server"])
+        cs.append(Case("tlsstream %s %d %s" % (mode, rng.choice([1, 20]), " ".join(evs)), kind="tls-half-record-" + mode, cut=1, npk=len(pk)))
     # every tier: a fixed share of streams of several whole messages, read by the TLS and TCP readers while the buffer of the k-th
     # message cannot be allocated (whatever the random part above produced)
     for _ in range(30 if tier == "quick" else 600):
